@@ -61,6 +61,9 @@ func main() {
 
 		var jobs []job
 		if lines := c.ReplayLines(); lines != nil {
+			// Replayed lines may come from different runs and share leaf names; the
+			// fault hook is keyed by leaf name, so replays run one at a time.
+			*workers = 1
 			for i, l := range lines {
 				if strings.HasPrefix(l, "EP ") {
 					jobs = append(jobs, job{idx: i, ep: l})
@@ -69,12 +72,16 @@ func main() {
 				}
 			}
 		} else {
-			n := c.Size(220, 6000)
+			// hx.NewRand(s+1) is hx.NewRand(s) advanced by one output, so plain
+			// forks of consecutive seeds would replay the same histories shifted by
+			// one position; mix the seed into every fork.
+			fork := func() *hx.Rand { return hx.NewRand(c.R.U64() ^ (c.Seed+1)*0xA24BAED4963EE407) }
+			n := c.Size(400, 8000)
 			for i := 0; i < n; i++ {
-				jobs = append(jobs, job{idx: i, gen: sessx.NewGen(c.R.Fork(), profile, i)})
+				jobs = append(jobs, job{idx: i, gen: sessx.NewGen(fork(), profile, i)})
 			}
 			if *prop == "C02" || *prop == "" {
-				g := sessx.NewGen(c.R.Fork(), profile, n)
+				g := sessx.NewGen(fork(), profile, n)
 				for i, m := 0, c.Size(120, 3000); i < m; i++ {
 					jobs = append(jobs, job{idx: n + i, ep: sessx.GenEndpointCase(g)})
 				}
@@ -131,6 +138,6 @@ func main() {
 			}
 			c.Case(r.Line, r.Impl, strings.Join(verdicts, " ;; "), r.Key)
 		}
-		c.Note("sessx: real Manager sessions on " + env.Base + "; property filter: " + *prop)
+		c.Note("sessx: histories of real Manager sessions (two local roots, no-watch, synchronous flushes); oracle classes emitted: " + *prop + "-*")
 	})
 }
